@@ -161,7 +161,8 @@ pub fn strategy(maxdim: usize) -> BoxedStrategy<Case> {
             };
             (m, Just(msg_seed))
         })
-        .prop_map(|((h, class), msg_seed)| Case { h, class: class.to_string(), msg_seed })
+        .prop_flat_map(|((h, class), msg_seed)| (shuffled(Just(h)), Just(class), Just(msg_seed)))
+        .prop_map(|(h, class, msg_seed)| Case { h, class: class.to_string(), msg_seed })
         .boxed()
 }
 
@@ -254,7 +255,7 @@ pub fn property() -> Property {
         id: "C02",
         subs: vec![Box::new(Sub {
             name: "encoder",
-            rule: "H with 1 <= r <= n <= 16 (thorough 48) built by class: exact staircase tail + random H0; near-staircase (one toggled tail cell anywhere incl. row 0, staircase shifted by one column); [A | P L U] with a random invertible tail; uniform dense; singular tail by construction (duplicated column, zero column, a row equal to the sum of two others); square (k = 0); single row. Oracle: own GF(2) rank of the last r columns decides Ok / Err(SubmatrixNotInvertible), never a panic; for Ok all 2^k messages (k <= 8) or 64 pseudo-random ones: length n, first k symbols = message, own H c = 0, encode(0) = 0, linearity on consecutive pairs. Non-trivial = (k >= 1, r >= 2, invertible tail) or (singular tail, r >= 2); inner = encoded messages",
+            rule: "H with 1 <= r <= n <= 16 (thorough 48) built by class: exact staircase tail + random H0; near-staircase (one toggled tail cell anywhere incl. row 0, staircase shifted by one column); [A | P L U] with a random invertible tail; uniform dense; singular tail by construction (duplicated column, zero column, a row equal to the sum of two others); square (k = 0); single row; ones inserted in shuffled order. Oracle: own GF(2) rank of the last r columns decides Ok / Err(SubmatrixNotInvertible), never a panic; for Ok all 2^k messages (k <= 8) or 64 pseudo-random ones: length n, first k symbols = message, own H c = 0, encode(0) = 0, linearity on consecutive pairs. Non-trivial = (k >= 1, r >= 2, invertible tail) or (singular tail, r >= 2); inner = encoded messages",
             cases: |t| t.pick(300_000, 6_000_000),
             strategy: |t| strategy(t.pick(16, 48)),
             check,
